@@ -1,4 +1,5 @@
 import Tau.Properties.C06
+import Tau.Properties.C02
 import Tau.Properties.C07
 import Tau.Proofs.Batch
 /-
@@ -196,5 +197,167 @@ theorem identifier_sequence_perm (E : RegexEngine) (ic : Bool) (ys ys' : List Ya
   obtain ⟨es, rfl, e1⟩ := key ys x h
   obtain ⟨es', rfl, e2⟩ := key ys' x' h'
   exact or_group_perm E K d (by rw [e1, e2]; exact hp.filterMap _)
+
+end Tau.C17
+
+/-! ### The general statement: reordering at any depth outside negations -/
+
+set_option linter.unusedSimpArgs false
+namespace Tau.C17
+open Tau
+
+/-- `a` and `b` are true on exactly the same documents (under every identifier environment). -/
+def TEqv (E : RegexEngine) (a b : Expr) : Prop :=
+  ∀ (K : IdentK) (d : Doc), (solveG E K d a = .t) ↔ (solveG E K d b = .t)
+
+theorem TEqv.refl (E : RegexEngine) (a : Expr) : TEqv E a a := fun _ _ => Iff.rfl
+theorem TEqv.symm {E : RegexEngine} {a b : Expr} (h : TEqv E a b) : TEqv E b a := fun K d => (h K d).symm
+theorem TEqv.trans {E : RegexEngine} {a b c : Expr} (h1 : TEqv E a b) (h2 : TEqv E b c) : TEqv E a c :=
+  fun K d => (h1 K d).trans (h2 K d)
+
+/-- Pointwise truth-equivalent operand lists give `Forall₂'` result lists. -/
+theorem forall2_of_pointwise (E : RegexEngine) (K : IdentK) (d : Doc) : ∀ (es es' : List Expr),
+    es.length = es'.length → (∀ i (h1 : i < es.length) (h2 : i < es'.length), TEqv E es[i] es'[i]) →
+    List.Forall₂' (es.map (solveG E K d)) (es'.map (solveG E K d))
+  | [], [], _, _ => .nil
+  | [], _ :: _, h, _ => by simp at h
+  | _ :: _, [], h, _ => by simp at h
+  | a :: as, b :: bs, hl, hp => by
+    simp only [List.map_cons]
+    refine .cons ?_ ?_
+    · exact hp 0 (by simp) (by simp) K d
+    · refine forall2_of_pointwise E K d as bs (by simpa using hl) (fun i h1 h2 => ?_)
+      have := hp (i + 1) (by simp; omega) (by simp; omega)
+      simpa using this
+
+theorem count_congr (xs ys : List Tri) (h : List.Forall₂' xs ys) : Tri.count xs = Tri.count ys := by
+  induction h with
+  | nil => rfl
+  | @cons x y xs ys hxy _ ih =>
+    simp only [Tri.count, List.countP_cons] at ih ⊢
+    rw [ih]
+    cases x <;> cases y <;> simp at hxy ⊢
+
+theorem ofN_pos_congr_truth (n : Nat) (hn : n ≠ 0) (xs ys : List Tri) (h : List.Forall₂' xs ys) :
+    (Tri.ofN n xs = .t) ↔ (Tri.ofN n ys = .t) := by
+  have hc := count_congr xs ys h
+  unfold Tri.ofN
+  simp only [hn, if_false, hc]
+  constructor <;> intro h' <;> (split at h' <;> first | (split <;> first | rfl | (rename_i h1 h2; exact absurd h1 h2)) | (split at h' <;> cases h'))
+
+/-- What a reordering may do, closed under the connectives truth passes through: permute the
+    operands of a grouped and / or, swap those of a two-operand and / or, permute what an
+    `all(..)` or an `of(.., n ≥ 1)` counts — at any depth that is not underneath a negation or a
+    none-of quantifier (there is no rule for `not` or `of(.., 0)`), also inside nested blocks. -/
+inductive Reorder : Expr → Expr → Prop where
+  | refl (a : Expr) : Reorder a a
+  | trans {a b c : Expr} : Reorder a b → Reorder b c → Reorder a c
+  | perm (op : BoolSym) (hop : op = .and ∨ op = .or) {es es' : List Expr} : es.Perm es' →
+      Reorder (.group op es) (.group op es')
+  | inside (op : BoolSym) (hop : op = .and ∨ op = .or) {es es' : List Expr} (hl : es.length = es'.length) :
+      (∀ i (h1 : i < es.length) (h2 : i < es'.length), Reorder es[i] es'[i]) →
+      Reorder (.group op es) (.group op es')
+  | comm (op : BoolSym) (hop : op = .and ∨ op = .or) (l r : Expr) : Reorder (.bin l op r) (.bin r op l)
+  | bin (op : BoolSym) (hop : op = .and ∨ op = .or) {l l' r r' : Expr} : Reorder l l' → Reorder r r' →
+      Reorder (.bin l op r) (.bin l' op r')
+  | allPerm (op : BoolSym) {es es' : List Expr} : es.Perm es' →
+      Reorder (.match .all (.group op es)) (.match .all (.group op es'))
+  | allInside (op : BoolSym) {es es' : List Expr} (hl : es.length = es'.length) :
+      (∀ i (h1 : i < es.length) (h2 : i < es'.length), Reorder es[i] es'[i]) →
+      Reorder (.match .all (.group op es)) (.match .all (.group op es'))
+  | ofPerm (n : Nat) (op : BoolSym) {es es' : List Expr} : es.Perm es' →
+      Reorder (.match (.of n) (.group op es)) (.match (.of n) (.group op es'))
+  | ofInside (n : Nat) (hn : n ≠ 0) (op : BoolSym) {es es' : List Expr} (hl : es.length = es'.length) :
+      (∀ i (h1 : i < es.length) (h2 : i < es'.length), Reorder es[i] es'[i]) →
+      Reorder (.match (.of n) (.group op es)) (.match (.of n) (.group op es'))
+  | nested (f : Str) {x x' : Expr} (hx : C02.isMatchE x = false) (hx' : C02.isMatchE x' = false) :
+      Reorder x x' → Reorder (.nested f x) (.nested f x')
+
+theorem nested_congr (E : RegexEngine) (f : Str) (x x' : Expr) (hx : C02.isMatchE x = false)
+    (hx' : C02.isMatchE x' = false) (h : TEqv E x x') : TEqv E (.nested f x) (.nested f x') := by
+  intro K d
+  rw [C02.nested_value E K d f x hx, C02.nested_value E K d f x' hx']
+  unfold C02.nestedSem
+  cases d.find f with
+  | none => exact Iff.rfl
+  | some v =>
+    cases v with
+    | obj kvs => exact h K (.obj kvs)
+    | arr a =>
+      simp only []
+      have : ((elemObjs a).any fun kvs => solveG E K (.obj kvs) x == .t) =
+             ((elemObjs a).any fun kvs => solveG E K (.obj kvs) x' == .t) := by
+        congr 1
+        funext kvs
+        have := h K (.obj kvs)
+        cases h1 : solveG E K (.obj kvs) x <;> cases h2 : solveG E K (.obj kvs) x' <;> simp_all <;> rfl
+      rw [this]
+    | _ => exact Iff.rfl
+
+/-- **Reordering never decides truth — at any depth.** Whatever chain of reorderings (`Reorder`)
+    leads from `a` to `b`, the two are true on exactly the same documents: the verdict of a rule is
+    invariant under reordering the operands of `or` / `and`, the members of lists, the entries of
+    mappings and sequences, wherever the reordered part is not underneath a negation or a none-of
+    quantifier. -/
+theorem reorder_truth (E : RegexEngine) {a b : Expr} (h : Reorder a b) : TEqv E a b := by
+  induction h with
+  | refl a => exact TEqv.refl E a
+  | trans _ _ ih1 ih2 => exact ih1.trans ih2
+  | perm op hop hp =>
+    intro K d
+    rcases hop with rfl | rfl
+    · exact and_group_perm_truth E K d hp
+    · rw [or_group_perm E K d hp]
+  | inside op hop hl _ ih =>
+    intro K d
+    have hf := forall2_of_pointwise E K d _ _ hl ih
+    rcases hop with rfl | rfl
+    · rw [C06.solve_group_and, C06.solve_group_and]; exact and_group_congr_truth _ _ hf
+    · rw [C06.solve_group_or, C06.solve_group_or]; exact or_group_congr_truth _ _ hf
+  | comm op hop l r =>
+    intro K d
+    rcases hop with rfl | rfl
+    · exact and_bin_comm_truth E K d l r
+    · rw [or_bin_comm E K d l r]
+  | bin op hop _ _ ihl ihr =>
+    intro K d
+    have hf : List.Forall₂' [solveG E K d _, solveG E K d _] [solveG E K d _, solveG E K d _] :=
+      .cons (ihl K d) (.cons (ihr K d) .nil)
+    rcases hop with rfl | rfl
+    · rw [C06.solve_bin_and, C06.solve_bin_and]; exact and_group_congr_truth _ _ hf
+    · rw [C06.solve_bin_or, C06.solve_bin_or]; exact or_group_congr_truth _ _ hf
+  | allPerm op hp => intro K d; exact all_group_perm_truth E K d op hp
+  | allInside op hl _ ih =>
+    intro K d
+    rw [C06.solve_all_group, C06.solve_all_group]
+    exact and_group_congr_truth _ _ (forall2_of_pointwise E K d _ _ hl ih)
+  | ofPerm n op hp => intro K d; rw [of_group_perm E K d n op hp]
+  | ofInside n hn op hl _ ih =>
+    intro K d
+    rw [C06.solve_of_group, C06.solve_of_group]
+    exact ofN_pos_congr_truth n hn _ _ (forall2_of_pointwise E K d _ _ hl ih)
+  | nested f hx hx' _ ih => exact nested_congr E f _ _ hx hx' ih
+
+/-- At rule level: a condition reordered this way gives the same verdict on every document. -/
+theorem reorder_verdict (E : RegexEngine) (ids : Ids) {a b : Expr} (h : Reorder a b) (d : Doc) :
+    matchesTop E ids d a = matchesTop E ids d b := by
+  have := reorder_truth E h (topK E ids) d
+  unfold matchesTop solveTop
+  cases h1 : solveG E (topK E ids) d a <;> cases h2 : solveG E (topK E ids) d b <;> simp_all [Tri.isT]
+
+/-- Non-vacuity: a reordering three levels deep — the operands of an `and` swapped, inside it the
+    members of an or-group permuted, inside a nested block the entries of a mapping permuted. -/
+example (s1 s2 s3 : Search) :
+    Reorder
+      (.bin (.group .or [.search s1 ['f'] false, .search s2 ['g'] false, .nested ['o'] (.group .and [.search s1 ['a'] false, .search s3 ['b'] false])]) .and (.search s3 ['h'] false))
+      (.bin (.search s3 ['h'] false) .and (.group .or [.nested ['o'] (.group .and [.search s3 ['b'] false, .search s1 ['a'] false]), .search s1 ['f'] false, .search s2 ['g'] false])) := by
+  refine .trans (.comm .and (Or.inl rfl) _ _) (.bin .and (Or.inl rfl) (.refl _) ?_)
+  refine .trans (.perm .or (Or.inr rfl) (es' := [.nested ['o'] (.group .and [.search s1 ['a'] false, .search s3 ['b'] false]), .search s1 ['f'] false, .search s2 ['g'] false]) ?_) ?_
+  · exact (List.perm_append_comm (l₁ := [_, _]) (l₂ := [_]))
+  · refine .inside .or (Or.inr rfl) rfl (fun i h1 h2 => ?_)
+    match i, h1 with
+    | 0, _ => exact .nested _ rfl rfl (.perm .and (Or.inl rfl) (List.Perm.swap _ _ _))
+    | 1, _ => exact .refl _
+    | 2, _ => exact .refl _
 
 end Tau.C17
